@@ -286,37 +286,24 @@ Section Fuel.
     intros rc s w s' H; unfold pump_write, poll_next_response in H.
     destruct (ensure_writeable tp s) as [x s1] eqn:EW.
     destruct (mu_ensure_writeable _ _ _ EW) as (A & B).
-    assert (Hfl : forall (sx : st) (isend : bool) w s',
-               mu sx <= mu s -> length (s_respq sx) <= length (s_respq s) ->
-               (let '(f, s2) := do_flush tp sx in
-                match f with
-                | TErr => (PErr AFlush, s2)
-                | TPending => (PPending, s2)
-                | TOk => if isend then (PEnd, s2)
-                         else if rc && Nat.eqb (length (s_inflight s2)) 0 then (PEnd, s2)
-                              else (PPending, s2)
-                end) = (w, s') ->
-               w <> PFuel /\ mu s' <= mu s
-               /\ match w with
-                  | PReady _ => S (length (s_respq s')) <= length (s_respq s)
-                  | _ => length (s_respq s') <= length (s_respq s) end).
-    { intros sx isend w0 s0 Hm Hq HH. destruct (do_flush tp sx) as [f s2] eqn:EFl.
-      destruct (mu_do_flush _ _ _ EFl) as (D & E).
-      destruct f; [destruct isend; [|destruct (rc && _)]| |];
-        injection HH as <- <-; (split; [discriminate|]); (split; [lia|]); rewrite E; lia. }
     destruct x as [| |a].
     - destruct (s_respq s1) as [|m q] eqn:EQ.
-      + cbn [fst snd] in H. apply (Hfl s1 false); [lia|rewrite B; lia|exact H].
-      + cbn [fst snd] in H.
-        destruct (mu_add_permit (set_respq s1 q)) as (D & E).
+      + destruct (do_flush tp s1) as [f s2] eqn:EFl.
+        destruct (mu_do_flush _ _ _ EFl) as (D & E).
+        destruct f; [destruct (rc && _)| |];
+          injection H as <- <-; (split; [discriminate|]); (split; [lia|]); rewrite E, EQ; cbn [length]; lia.
+      + destruct (mu_add_permit (set_respq s1 q)) as (D & E).
         destruct (base_start_send tp m (add_permit (set_respq s1 q))) as [e s2] eqn:ES.
         destruct (mu_base_start_send _ _ _ _ ES) as (F & G).
         assert (Hq : S (length (s_respq s2)) <= length (s_respq s)).
-        { rewrite G, E. sproj. rewrite <- B, EQ. cbn. lia. }
+        { rewrite G, E. sproj. rewrite <- B. cbn [length]. lia. }
         assert (Hm : mu s2 <= mu s).
         { rewrite D in F. change (mu (set_respq s1 q)) with (mu s1) in F. lia. }
         destruct e; injection H as <- <-; (split; [discriminate|]); (split; [lia|]); lia.
-    - cbn [fst snd] in H. apply (Hfl s1 false); [lia|rewrite B; lia|exact H].
+    - destruct (do_flush tp s1) as [f s2] eqn:EFl.
+      destruct (mu_do_flush _ _ _ EFl) as (D & E).
+      destruct f; [destruct (rc && _)| |];
+        injection H as <- <-; (split; [discriminate|]); (split; [lia|]); rewrite E, B; lia.
     - injection H as <- <-. split; [discriminate|]. split; [lia|rewrite B; lia].
   Qed.
 
@@ -341,8 +328,8 @@ Section Fuel.
     destruct (pump_read_fuel _ _ _ _ _ Hlt ER) as (A & B & D).
     destruct rd as [q| |a| |]; try (exfalso; apply A; reflexivity);
       try (injection H as <- <-; discriminate).
-    all: match type of H with context [pump_write tp ?b s1] =>
-           destruct (pump_write tp b s1) as [wr s2] eqn:EW;
+    all: match type of H with context [pump_write tp ?b ?sx] =>
+           destruct (pump_write tp b sx) as [wr s2] eqn:EW;
            destruct (pump_write_fuel _ _ _ _ EW) as (E & F & G) end.
     all: destruct wr as [u| |a| |]; try (exfalso; apply E; reflexivity);
       try (injection H as <- <-; discriminate).
